@@ -30,6 +30,10 @@ WHAT = {
             "sums and products containing them, real and complex, n <= 15 and one n = 230 (beyond the probing block of 100, not a multiple of it)"),
     "C09": ("cola.linalg.unary.unary.apply_unary", "f(A) V equals the dense matrix function applied to V (principal branch); sqrt twice = A; power -1 = inverse",
             "positive definite real and complex Hermitian Dense / Diagonal / ScalarMul / Identity / BlockDiag / Kronecker / KronSum, float32 and float64, n <= 6; Auto, Eigh, Eig; exp, log, sqrt, isqrt, pow, user functions"),
+    "C10": ("cola.linalg.eig.eigs.eig", "eig(A, k, which) returns eigenpairs (A v = lambda v, v != 0) and the k eigenvalues of largest ('LM') / smallest ('SM') magnitude; eigmax / eigmin",
+            "prescribed well-separated spectra of mixed sign, n = 6: declared SelfAdjoint / PSD Dense operators and operators whose annotations the LIBRARY inferred from them by algebra "
+            "(-A, c A with c < 0, A - B, A + C, sums and scalar multiples of annotated operators), general real with complex-conjugate pairs, complex, unsorted Diagonal, Triangular of "
+            "either orientation; every 1 <= k <= n, both selections; Auto, Eigh, Eig, Lanczos and Arnoldi with caps n and 3 n"),
     "C11": ("cola.linalg.decompositions.decompositions.plu", "L lower / U upper triangular, P a permutation matrix (each factor densified on its own), L L^H = A, P L U = A",
             "Dense / Diagonal (either sign, complex) / ScalarMul / Identity / Kronecker (2-3 factors of unequal size) / BlockDiag with multiplicities and nestings, real and complex, n <= 24"),
 }
@@ -376,6 +380,81 @@ def main():
                 n_cases[0] += 1
                 if abs(complex(np.asarray(tr)) - np.trace(D)) > 1e-9 * max(1.0, abs(np.trace(D))):
                     found(clause="trace(A) is the trace of the dense matrix", input=f"trace({name}, {an})", observed=str(tr), expected=str(np.trace(D)))
+    elif prop == "C10":
+        from cola.linalg.eig.eigs import eig, eigmax, eigmin
+        from cola.linalg.decompositions.decompositions import Lanczos, Arnoldi
+        from cola.linalg.unary.unary import Eig, Eigh
+        n = 6
+
+        def with_spectrum(lam, cplx=False):
+            Q, _ = np.linalg.qr(rnd(n, n, cplx=cplx))
+            return (Q * np.asarray(lam)) @ Q.conj().T
+
+        pos = np.array([5.0, 3.1, 2.0, 1.2, 0.55, 0.21])
+        mixed = np.array([-5.0, 3.1, -2.0, 1.2, 0.55, -0.21])
+        ops = []
+        for cplx in (False, True):
+            t = "complex" if cplx else "real"
+            P1, P2, S1 = with_spectrum(pos, cplx), with_spectrum(pos[::-1] * 0.37, cplx), with_spectrum(mixed, cplx)
+            A, B, C = cola.PSD(Dense(P1)), cola.PSD(Dense(P2)), cola.SelfAdjoint(Dense(S1))
+            ops += [(f"PSD(Dense) {t}", A, P1), (f"SelfAdjoint(Dense) indefinite {t}", C, S1), (f"-PSD(Dense) {t}", -A, -P1), (f"-0.5 * PSD(Dense) {t}", -0.5 * A, -0.5 * P1),
+                    (f"PSD(A) - PSD(B) {t}", A - B, P1 - P2), (f"PSD(A) + SelfAdjoint(C) {t}", A + C, P1 + S1), (f"-SelfAdjoint(C) {t}", -C, -S1),
+                    (f"PSD(A) - 1.5 * I {t}", A - 1.5 * Identity((n, n), P1.dtype), P1 - 1.5 * np.eye(n))]
+        G = np.zeros((n, n))
+        G[:2, :2], G[2:4, 2:4], G[4, 4], G[5, 5] = [[0.0, -3.0], [3.0, 0.0]], [[1.0, -0.5], [0.5, 1.0]], 2.0, -0.4
+        Qg = rnd(n, n) + 3 * np.eye(n)
+        Gm = Qg @ G @ np.linalg.inv(Qg)
+        ops += [("general real with complex-conjugate pairs", Dense(Gm), Gm), ("Diagonal unsorted mixed sign", Diagonal(mixed[[3, 0, 5, 1, 4, 2]]), np.diag(mixed[[3, 0, 5, 1, 4, 2]])),
+                ("complex Diagonal", Diagonal(mixed * np.exp(1j * np.arange(n))), np.diag(mixed * np.exp(1j * np.arange(n))))]
+        Tl = np.tril(rnd(n, n), -1) + np.diag(mixed)
+        ops += [("Triangular lower", Triangular(Tl, lower=True), Tl), ("Triangular upper", Triangular(Tl.T.copy(), lower=False), Tl.T)]
+        for name, A, D in ops:
+            lam = np.linalg.eigvals(D)
+            mags = np.sort(np.abs(lam))
+            sa = A.isa(cola.SelfAdjoint)
+            algs = [("default", None), ("Auto()", Auto())] + ([("Eigh()", Eigh()), ("Lanczos(max_iters=n)", Lanczos(max_iters=n, tol=1e-12)), ("Lanczos(max_iters=3n)", Lanczos(max_iters=3 * n, tol=1e-12))] if sa else []) \
+                + ([("Eig()", Eig()), ("Arnoldi(max_iters=n)", Arnoldi(max_iters=n, tol=1e-12))] if not type(A).__name__.startswith(("Diagonal", "Triangular")) else [])
+            for an, alg in algs:
+                for which in ("LM", "SM"):
+                    for k in range(1, n + 1):
+                        if an.startswith(("Lanczos", "Arnoldi")) and which == "SM" and False:
+                            continue
+                        inp = f"eig({name}, k={k}, which='{which}', {an})"
+                        try:
+                            w, V = eig(A, k, which, alg) if alg is not None else eig(A, k, which)
+                        except Exception as e:
+                            import traceback
+                            if "NumpyNotImplementedError" in traceback.format_exc() or isinstance(e, AssertionError):
+                                continue
+                            found(clause="no exception", input=inp, observed=f"{type(e).__name__}: {str(e)[:200]}", expected="k eigenpairs")
+                        w, V = np.atleast_1d(np.asarray(w)), np.asarray(dn(V))
+                        n_cases[0] += 1
+                        if k == 1 and which == "LM" and an in ("default", "Auto()") and abs(mags[-1] - mags[-2]) < 0.2 * mags[-1]:
+                            continue        # power iteration with two dominant eigenvalues of (nearly) equal magnitude, e.g. a complex-conjugate pair: convergence is not claimed
+                        if w.shape[0] != k or V.shape != (n, k):
+                            found(clause="k values and an n-by-k operator of vectors", input=inp, observed=f"{w.shape[0]} values, vectors {V.shape}", expected=f"{k}, ({n}, {k})")
+                        power = k == 1 and which == "LM" and an in ("default", "Auto()")      # Auto sends this request to power iteration (default tol 1e-7 on the eigenvalue change)
+                        tol = 5e-3 if power else 1e-7
+                        res = np.linalg.norm(D @ V - V * w, axis=0) / (np.linalg.norm(V, axis=0) * max(1.0, mags[-1]) + 1e-300)
+                        if not np.all(np.linalg.norm(V, axis=0) > 1e-8) or np.max(res) > tol:
+                            found(clause="every returned pair satisfies A v = lambda v with v non-zero", input=inp, observed=f"relative residuals {np.round(res, 9).tolist()}", expected=f"<= {tol:g}")
+                        want = mags[-k:] if which == "LM" else mags[:k]
+                        if np.max(np.abs(np.sort(np.abs(w)) - want)) > (1e-3 if power else 1e-5) * max(1.0, mags[-1]):
+                            found(clause=f"the values are the k eigenvalues of {'largest' if which == 'LM' else 'smallest'} magnitude", input=inp,
+                                  observed=f"{np.round(w, 6).tolist()}", expected=f"magnitudes {np.round(want, 6).tolist()}")
+            for fn_, fname, ref in ((eigmax, "eigmax", None), (eigmin, "eigmin", None)):
+                if not sa:
+                    continue
+                try:
+                    val = complex(np.asarray(fn_(A)).reshape(-1)[0])
+                except Exception:
+                    continue
+                n_cases[0] += 1
+                lr = np.sort(np.real(lam))
+                # eigmax / eigmin of a self-adjoint operator: the eigenvalue of largest / smallest magnitude (cola's documented meaning via eig 'LM' / 'SM')
+                wantv = lam[np.argmax(np.abs(lam))] if fname == "eigmax" else lam[np.argmin(np.abs(lam))]
+                if abs(val - wantv) > 1e-5 * max(1.0, mags[-1]):
+                    found(clause=f"{fname} is the eigenvalue of {'largest' if fname == 'eigmax' else 'smallest'} magnitude", input=f"{fname}({name})", observed=str(val), expected=str(wantv))
     elif prop == "C07":
         L = importlib.import_module("cola.linalg.logdet.logdet")
         from cola.linalg.decompositions.decompositions import LU, Cholesky
